@@ -278,6 +278,15 @@ func runCorpusTL1(c *core.Ctx, prop string, cp Corpus, k, kmut, kjson, kre, kmut
 				firstErr = err
 				return
 			}
+			// and the same edge backwards (the value graph is explored one way only up to K steps)
+			rev := p
+			rev.From, rev.To = p.To, p.From
+			fs2, err := replayEdge(c, b, &rev, nEdge+2)
+			if err != nil {
+				firstErr = err
+				return
+			}
+			fs = append(fs, fs2...)
 			for _, f := range fs {
 				c.Violate(fmt.Sprintf("%s/%s/%s/%s", f.class, cp.Name, p.Tn, negKey(&p, f)), fmt.Sprintf("type %s: %s", p.Tn, f.what),
 					map[string]any{"corpus": cp, "payload": p})
@@ -969,7 +978,11 @@ func replayFn(c *core.Ctx, b *Built, p *valPayload) ([]finding, error) {
 		return []finding{{"fn", key, "no transcoders: " + r.Steps[1].Err + r.Steps[1].Panic}}, nil
 	}
 	bad := func(name, what string) {
-		fs = append(fs, finding{"fn", name + "/" + key, fmt.Sprintf("request %s, result %s: transcoder %s: %s", hexs(p.Req), hexs(p.Res1), name, what)})
+		k := name + "/" + key
+		if p.Small && b.Corpus.Sanity && strings.Contains(what, "min object size") {
+			k = "sanity-small-elements" // the constant-4 length sanity rule refusing smaller elements (see C01)
+		}
+		fs = append(fs, finding{"fn", k, fmt.Sprintf("request %s, result %s: transcoder %s: %s", hexs(p.Req), hexs(p.Res1), name, what)})
 	}
 	checkBytes := func(name string, want []int, inLen int) {
 		x, ok := fn[name]
